@@ -37,7 +37,8 @@ def dt11 : C08.DType → C11.DType
 def f09 (f : Field) : C09.Field := ⟨f.name.toList, (dtOf f.dt).getD .string⟩
 
 /-- a field as C11 sees it (name, datatype, is it a key) -/
-def f11 (f : Field) : C11.Field := ⟨f.name, dt11 ((dtOf f.dt).getD .string), f.isKey⟩
+def f11 (f : Field) : C11.Field :=
+  ⟨f.name, if f.dt = ":float" then .float else dt11 ((dtOf f.dt).getD .string), f.isKey⟩
 
 def schema09 (ss : Schema) : C09.Schema := ss.map (fun t => (t.1.toList, t.2.map f09))
 
@@ -72,15 +73,32 @@ def mapE {α β} (f : α → Except Err β) : List α → Except Err (List β)
       | .error e => .error e
       | .ok bs => .ok (b :: bs)
 
-/-- a stored cell with its cast value (`tsdb.cast`, C08) -/
-def cell11 (f : Field) (raw : Option (List Char)) : Except Err C11.Cell :=
+mutual
+/-- the column names a condition mentions (qualified or not) -/
+def condCols : C11.Cond C11.ColRef → List String
+  | .leaf _ c _ => [c.col]
+  | .not c => condCols c
+  | .and cs => condColsList cs
+  | .or cs => condColsList cs
+def condColsList : List (C11.Cond C11.ColRef) → List String
+  | [] => []
+  | c :: cs => condCols c ++ condColsList cs
+end
+
+/-- does the real code ever cast this column while answering the query?  Only key columns (join keys,
+`select_from(..., cast=True)`) and the columns of the condition (`_process_condition_function`). -/
+def castNeeded (cols : List String) (f : Field) : Bool := f.isKey || cols.contains f.name
+
+/-- a stored cell with its cast value (`tsdb.cast`, C08); a column that is never cast carries no value -/
+def cell11 (cols : List String) (f : Field) (raw : Option (List Char)) : Except Err C11.Cell :=
+  if !castNeeded cols f then .ok ⟨raw, .none⟩ else
   match C08.cast ((dtOf f.dt).getD .string) (raw.getD []) with
   | .val v => .ok ⟨raw, val11 v⟩
   | .err _ => .error .unmodelled
 
-def row11 (fields : List Field) (r : Rec) : Except Err (List C11.Cell) :=
+def row11 (cols : List String) (fields : List Field) (r : Rec) : Except Err (List C11.Cell) :=
   if r.length ≠ fields.length then .error .unmodelled
-  else mapE (fun fc => cell11 fc.1 fc.2) (fields.zip r)
+  else mapE (fun fc => cell11 cols fc.1 fc.2) (fields.zip r)
 
 /-- the rows of a relation as `Database(autocast=False)` reads them; `none`: no file -/
 def rawRows (fs : C09.Files) (n : Name) : Except Err (Option (List Rec)) :=
@@ -93,18 +111,18 @@ def rawRows (fs : C09.Files) (n : Name) : Except Err (Option (List Rec)) :=
 
 /-- one relation of the source database for C11 (a relation without file has no rows; its name
 is remembered, see `selectC`) -/
-def rel11 (fs : C09.Files) (t : Name × List Field) : Except Err (C11.Rel × Bool) :=
+def rel11 (cols : List String) (fs : C09.Files) (t : Name × List Field) : Except Err (C11.Rel × Bool) :=
   match rawRows fs t.1 with
   | .error e => .error e
   | .ok none => .ok ({ name := t.1, fields := t.2.map f11, rows := [] }, true)
   | .ok (some rs) =>
-    match mapE (row11 t.2) rs with
+    match mapE (row11 cols t.2) rs with
     | .error e => .error e
     | .ok rows => .ok ({ name := t.1, fields := t.2.map f11, rows := rows }, false)
 
 /-- the source profile as a C11 database, and the relations that have no file -/
-def toDB (ss : Schema) (fs : C09.Files) : Except Err (C11.DB × List Name) :=
-  match mapE (rel11 fs) ss with
+def toDB (cols : List String) (ss : Schema) (fs : C09.Files) : Except Err (C11.DB × List Name) :=
+  match mapE (rel11 cols fs) ss with
   | .error e => .error e
   | .ok rs => .ok (rs.map (·.1), (rs.filter (·.2)).map (·.1.name))
 
@@ -132,7 +150,7 @@ inductive SelRes where
 /-- `tsql.select('* from T where c', db)` through C11 -/
 def selectC (rx : List Char → List Char → Bool) (ss : Schema) (fs : C09.Files) (t : Name)
     (c : C11.Cond C11.ColRef) : SelRes :=
-  match toDB ss fs with
+  match toDB (condCols c) ss fs with
   | .error e => .raise e
   | .ok (db, missing) =>
     match C11.select rx db (queryOf t c) with
@@ -245,8 +263,14 @@ def mkprofRefreshC (now : Nat) (dst : CDir) (schema : Option Schema) (gzip skele
     | (fs, some e) => ({ schema := some target, files := fs }, some (err09 e))
     | (fs, none) => ({ schema := some target, files := cleanupC target skeleton old.names fs }, none)
 
-/-- can the composed model speak about this case?  (datatypes known to C08/C09/C11) -/
-def composable (src : Option Schema) (alt : Option Schema) : Bool :=
-  (match src with | some s => typed s | none => true) && (match alt with | some s => typed s | none => true)
+/-- can the composed model speak about this case?  A `:float` column is plain text for copying and
+writing (C09: default empty, value verbatim) and C11 models its type check (a well-typed comparison on
+it is answered `unmodelled`, which the driver turns into the fallback path); only a `:float` KEY column
+(joined by cast value) and datatypes unknown to all islands are excluded here. -/
+def composable (src : Option Schema) (cond : Option (C11.Cond C11.ColRef)) : Bool :=
+  match src, cond with
+  | some s, some _ =>
+    s.all (fun t => t.2.all (fun f => (dtOf f.dt).isSome || (f.dt = ":float" && !f.isKey)))
+  | _, _ => true
 
 end Verif.C12.Compose
